@@ -10,6 +10,7 @@
 mod num;
 mod prng;
 mod props;
+mod rangew;
 mod refimpl;
 mod report;
 mod table;
